@@ -154,7 +154,13 @@ def pipeline(root, part, rng, tier):
                 if sig != "24":
                     part.violation("not-killed/" + form, dict(wit, summary="%s: the job outlives its limit (ran %s s, limit is %.2f s in scaled time), journal says signal %s status %s"
                                                             % (ev["spec"], real, target, sig, xs)))
-                elif real is None or real > target + 1.0 or real < target - 0.02:
+                # echsx arms the alarm before it prepares and spawns the job and stamps the start afterwards, so the
+                # journal's real time may be short of the limit by the preparation time; the exact value of the limit
+                # has been judged on the alarm() argument above, here the point is that the kill happens, and in time
+                elif real is not None and target + 1.0 < real < 5.0:
+                    # killed by the deadline's signal, but late: a loaded machine, not a wrong deadline (that was judged above)
+                    part.inconclusive.append({"why": "kill arrived %.2f s after a %.2f s limit (machine load)" % (real, target)})
+                elif real is None or real >= 5.0 or real < target * 0.2:
                     part.violation("killed-at-wrong-time/" + form, dict(wit, summary="%s: killed after %s s, the (scaled) limit is %.2f s" % (ev["spec"], real, target)))
                 else:
                     part.nontrivial.add("killed %s L=%d" % (form, L))
